@@ -1272,7 +1272,24 @@ def rule_formula(ctx):
             want = (Rat.const(1) + b * b) * P * R / (b * b * P + R)
             verdict(fn, "", fm, got, want, " (1 + b^2) P R / (b^2 P + R)")
         except (Unsupported, TypeError, KeyError, AttributeError) as e_:
-            res.undecided("%s : not-read" % key, "f_score is outside the vocabulary of the formula reader: %s (fail closed)" % e_, fn_loc(fn))
+            # precision and recall may reach the formula through a helper: read the binary case with everything inlined, down
+            # to the cells of the matrix, and compare with the public precision() / recall() read the same way
+            try:
+                def setup_b(fm):
+                    fm.method_bool["is_binary"] = True
+                fm, got = read(fn, [lambda fm: V("scal", fm.atom("self")), lambda fm: V("scal", fm.atom("beta"))], setup=setup_b)
+                pr = {}
+                for nm_ in ("precision", "recall"):
+                    g_ = next(iter(fns_named(F, nm_, adt="ConfusionMatrix")), None)
+                    if g_ is None:
+                        raise Unsupported("no public %s()" % nm_)
+                    ps_ = [b_ for p_ in g_["params"] for b_ in pat_bindings(p_)]
+                    pr[nm_] = fm.expr(g_["crate"], g_["body"], {ps_[0]["local"]: V("scal", fm.atom("self"))}).r
+                b = fm.atom("beta")
+                want = (Rat.const(1) + b * b) * pr["precision"] * pr["recall"] / (b * b * pr["precision"] + pr["recall"])
+                verdict(fn, "binary", fm, got, want, " (1 + b^2) P R / (b^2 P + R) with P = precision(), R = recall() of the 2x2 matrix")
+            except (Unsupported, TypeError, KeyError, AttributeError) as e2_:
+                res.undecided("%s : not-read" % key, "f_score is outside the vocabulary of the formula reader: %s / %s (fail closed)" % (e_, e2_), fn_loc(fn))
     for nm in ("precision", "recall"):
         for fn in fns_named(F, nm, adt="ConfusionMatrix"):
             n += 1
